@@ -20,16 +20,17 @@ LEVEL_TEXT = (
     "{id(x): x for ..}.values() - has between 1 and n elements): the number of yields equals the requested size k"
     " on every path, for all k and all input sizes n >= k (callee steps/initializers are assumed to honour the "
     "same obligation; helper generators of the repository are sized by the same analysis; 'while True' retry "
-    "loops yield once per completed round; an except / else clause that swallows a failed creation without "
-    "yielding makes the count fall short and is a finding); (R2p) the parallel family, per class (an inherited "
-    "iterate with overridden hooks is analysed again): the slice boundaries are decided by a list-shape abstract "
-    "interpretation (first / last element, bounds, monotonicity through running sums, itertools.accumulate, "
-    "clamps, concatenation, append loops, b[-1] = k, conditions on b[-1]): consecutive pairs of one list that "
-    "starts at 0, is non-decreasing, never passes and ends exactly at target_size, computed from this call's "
-    "arguments (no memo); every sub-step is asked for end-start and empty slices contribute nothing, so the "
-    "shares telescope to k for every weight vector; (R3) the GP driver (and its helper methods) asks initializer "
-    "and step for the configured population size. Does not decide that the shares are proportional to the "
-    "weights."
+    "loops yield once per completed round; a loop that stops once a counter reaches k yields k only if every path"
+    " that yields also counts - a path that yields without counting is followed to the end of the input; an "
+    "except / else clause that swallows a failed creation without yielding makes the count fall short and is a "
+    "finding); (R2p) the parallel family, per class (an inherited iterate with overridden hooks is analysed "
+    "again): the slice boundaries are decided by a list-shape abstract interpretation (first / last element, "
+    "bounds, monotonicity through running sums, itertools.accumulate, clamps, concatenation, append loops, b[-1] "
+    "= k, conditions on b[-1]): consecutive pairs of one list that starts at 0, is non-decreasing, never passes "
+    "and ends exactly at target_size, computed from this call's arguments (no memo); every sub-step is asked for "
+    "end-start and empty slices contribute nothing, so the shares telescope to k for every weight vector; (R3) "
+    "the GP driver (and its helper methods) asks initializer and step for the configured population size. Does "
+    "not decide that the shares are proportional to the weights."
 )
 
 ALLOW_SIZE = {
